@@ -46,6 +46,7 @@ type Exec struct {
 	prog       *ssa.Program
 	tc         *TermCtx
 	sol        *Solver
+	xsol       *Solver // optional second solver for assertion obligations (thorough tier)
 	opts       Options
 	stats      Stats
 	nextObj    int
